@@ -171,6 +171,99 @@ Proof.
   vm_compute. split; reflexivity.
 Qed.
 
+(** ** Life-cycle operations: RangeKeys, DestroyUnit, Close.
+    Histories are now lists of [lop]: data operations ([LData op]) arbitrarily interleaved with
+    [LRangeKeys], [LDestroyUnit o] and [LClose o] ([o] = the oracle bit that the persister's Destroy /
+    Close will consume; [true] = it fails, without effect).  [life_ack_map tr] is the map of acknowledged
+    writes of such a trace: an acknowledged DestroyUnit withdraws every write; RangeKeys and Close write
+    nothing.  A successful DestroyUnit keeps cache and persister coherent only if the cacher's Clear
+    forgets everything ([clear_forgets], not one of the laws: the FIFO sharded cache's Clear skips the
+    empty key), hence the premise "clear_forgets, or no DestroyUnit in the history" ([destroy_free]).
+    What a persister answers after a SUCCESSFUL Close is not modelled (see Unit/StorageUnit.v). *)
+
+(** C16_map over life-cycle histories: every output is the one the map of the writes acknowledged so
+    far allows; RangeKeys hands over exactly that map; DestroyUnit / Close return the injected error
+    exactly when the persister's Destroy / Close fails *)
+Theorem C16_map_lifecycle : forall (C : cacher_ops) (L : cacher_laws C) (ops : list lop),
+  clear_forgets C L \/ destroy_free ops ->
+  life_trace_ok [] (life_run C (unit_new C) ops).
+Proof. exact life_map_all. Qed.
+
+Theorem C16_get_has_after_lifecycle : forall (C : cacher_ops) (L : cacher_laws C) (ops : list lop) (k : bytes),
+  clear_forgets C L \/ destroy_free ops ->
+  get_now C (life_final C (unit_new C) ops) k = spec_get (life_ack_map (life_run C (unit_new C) ops)) k /\
+  has_now C (life_final C (unit_new C) ops) k = spec_has (life_ack_map (life_run C (unit_new C) ops)) k.
+Proof. exact life_get_after. Qed.
+
+(** the old statements are the special case of histories without life-cycle operations *)
+Theorem C16_lifecycle_extends : forall (C : cacher_ops) (ops : list uop) (s : ustate C),
+  life_run C s (map LData ops) = map (fun x => (LData (fst x), snd x)) (unit_run C s ops).
+Proof. exact life_run_data. Qed.
+
+(** RangeKeys after any history: the handler is handed exactly the pairs of the map of acknowledged
+    writes (= the persister's content, everything being written through) - a list without repeated keys
+    whose members are exactly the bindings of that map - and the unit is unchanged.  The cache is not
+    consulted: the statement holds for every lawful cacher and whatever the cache holds *)
+Theorem C16_range_keys : forall (C : cacher_ops) (L : cacher_laws C) (pre : list lop),
+  clear_forgets C L \/ destroy_free pre ->
+  let s0 := life_final C (unit_new C) pre in
+  let m := life_ack_map (life_run C (unit_new C) pre) in
+  life_step C s0 LRangeKeys = (s0, RRange m) /\
+  NoDup (map fst m) /\ (forall k v, In (k, v) m <-> p_lookup m k = Some v).
+Proof. exact range_keys_all. Qed.
+
+(** DestroyUnit after any history, for a cacher whose Clear forgets everything: the cache is cleared and
+    answers nothing for any key, in every case; when the persister accepts, nil is returned, the
+    persister is empty and Get / Has of every key say not found; when the persister's Destroy fails, the
+    injected error is returned, the persister is unchanged and Get still serves the acknowledged values *)
+Theorem C16_destroy_unit : forall (C : cacher_ops) (L : cacher_laws C) (pre : list lop) (o : oracle),
+  clear_forgets C L ->
+  let s0 := life_final C (unit_new C) pre in
+  let r := life_step C s0 (LDestroyUnit o) in
+  let s1 := fst r in
+  u_cache s1 = c_clear C (u_cache s0) /\ cache_silent C (u_cache s1) /\
+  (hd false o = false ->
+     snd r = RErr ENone /\ u_pers s1 = [] /\
+     forall k, get_now C s1 k = GErr ENotFound /\ has_now C s1 k = ENotFound) /\
+  (hd false o = true ->
+     snd r = RErr EInjected /\ u_pers s1 = u_pers s0 /\
+     forall k, get_now C s1 k = spec_get (life_ack_map (life_run C (unit_new C) pre)) k).
+Proof. exact destroy_unit_all. Qed.
+
+(** Close after any history: the cache is cleared BEFORE the persister is asked to close, hence also
+    when the persister's Close fails; the stored data is untouched; the returned error is the
+    persister's; for a cacher whose Clear forgets everything the cache then answers nothing; after a
+    FAILED Close (the persister is still open) Get serves the acknowledged values by reading through *)
+Theorem C16_close : forall (C : cacher_ops) (L : cacher_laws C) (pre : list lop) (o : oracle),
+  clear_forgets C L \/ destroy_free pre ->
+  let s0 := life_final C (unit_new C) pre in
+  let r := life_step C s0 (LClose o) in
+  let s1 := fst r in
+  u_cache s1 = c_clear C (u_cache s0) /\ u_pers s1 = u_pers s0 /\
+  snd r = RErr (if hd false o then EInjected else ENone) /\
+  (clear_forgets C L -> cache_silent C (u_cache s1)) /\
+  (hd false o = true ->
+     forall k, get_now C s1 k = spec_get (life_ack_map (life_run C (unit_new C) pre)) k).
+Proof. exact close_all. Qed.
+
+(** non-vacuity (cache of capacity 2): two writes, RangeKeys sees both whatever the cache holds; a
+    failing Close clears the cache and returns the error, the data is still served; a failing
+    DestroyUnit likewise; a successful DestroyUnit empties both layers *)
+Example C16_lifecycle_nonvacuous :
+  let a := [1%N] in let b := [2%N] in
+  let C := small_cache 2 in
+  let ops := [LData (OPut a [10%N] []); LData (OPut b [20%N] []); LData (OPut a [11%N] []); LRangeKeys;
+              LClose [true]; LData (OGet a []); LDestroyUnit [true]; LRangeKeys;
+              LDestroyUnit []; LData (OGet a []); LData (OHas b []); LRangeKeys; LClose []] in
+  map snd (life_run C (unit_new C) ops) =
+    [RErr ENone; RErr ENone; RErr ENone; RRange [(a, [11%N]); (b, [20%N])];
+     RErr EInjected; RGet (GOk [11%N]); RErr EInjected; RRange [(a, [11%N]); (b, [20%N])];
+     RErr ENone; RGet (GErr ENotFound); RErr ENotFound; RRange []; RErr ENone] /\
+  u_cache (life_final C (unit_new C) (firstn 5 ops)) = [] /\
+  u_pers (life_final C (unit_new C) (firstn 5 ops)) = [(a, [11%N]); (b, [20%N])] /\
+  life_ack_map (life_run C (unit_new C) ops) = [].
+Proof. vm_compute. repeat split; reflexivity. Qed.
+
 (** ** Non-vacuity: a concrete history with eviction, read-through refill, a rejected overwrite of a
     cached key, a rejected Remove and a bulk read (cache of capacity 1, keys a=[1] b=[2]). *)
 Example C16_nonvacuous :
@@ -210,3 +303,9 @@ Print Assumptions C16_coherent_small_cache.
 Print Assumptions C16_map_unguarded_refuted.
 Print Assumptions C16_bulk_unguarded_refuted.
 Print Assumptions C16_remove_unguarded_refuted.
+Print Assumptions C16_map_lifecycle.
+Print Assumptions C16_get_has_after_lifecycle.
+Print Assumptions C16_lifecycle_extends.
+Print Assumptions C16_range_keys.
+Print Assumptions C16_destroy_unit.
+Print Assumptions C16_close.
